@@ -111,3 +111,18 @@ func (t *Tape) Range(lo, hi int) int {
 
 // Used returns how many values have been consumed.
 func (t *Tape) Used() int { return len(t.Out) }
+
+// HashBytes folds b into the FNV-1a style running hash h.
+func HashBytes(h uint64, b []byte) uint64 {
+	for _, c := range b {
+		h ^= uint64(c)
+		h *= 1099511628211
+	}
+	h ^= 0xff
+	h *= 1099511628211
+
+	return h
+}
+
+// HashInit is the initial value for HashBytes.
+const HashInit uint64 = 14695981039346656037
